@@ -8,13 +8,19 @@ import (
 
 // Scripted scenarios: the minimal histories behind each clause (they double as the corpus).
 func Scripted(prop string) []*Scenario {
-	v := func(p int, d int64, txs ...TxSpec) NodeSpec { return NodeSpec{Parent: p, Diff: d, Txs: txs, Valid: true} }
+	v := func(p int, d int64, txs ...TxSpec) NodeSpec {
+		return NodeSpec{Parent: p, Diff: d, Txs: txs, Valid: true}
+	}
 	tx := func(a, variant int) TxSpec { return TxSpec{a, variant} }
 	// nodes: 1-2-3 (100 each, txs), 4 on genesis (300: tie with lower number), 5 on genesis (400: shorter, heavier),
 	// 6 on 5 (10), 7-8 on 3 (longer, lighter than 5-6? 100+100) ...
 	nodes := []NodeSpec{{}, v(0, 100, tx(0, 0), tx(1, 0)), v(1, 100, tx(0, 0)), v(2, 100), v(0, 300, tx(0, 0)), v(0, 400, tx(2, 0)), v(5, 10), v(3, 100), v(7, 100, tx(3, 1))}
-	ins := func(s string, seed int64, n ...int) OpSpec { return OpSpec{Sess: s, Kind: "insert", Nodes: n, Seed: seed} }
-	hdr := func(s string, seed int64, n ...int) OpSpec { return OpSpec{Sess: s, Kind: "headers", Nodes: n, Seed: seed} }
+	ins := func(s string, seed int64, n ...int) OpSpec {
+		return OpSpec{Sess: s, Kind: "insert", Nodes: n, Seed: seed}
+	}
+	hdr := func(s string, seed int64, n ...int) OpSpec {
+		return OpSpec{Sess: s, Kind: "headers", Nodes: n, Seed: seed}
+	}
 	out := []*Scenario{
 		{Name: "shorter-heavier", Nodes: nodes, Ops: []OpSpec{ins("f", 1, 1, 2, 3), ins("f", 2, 4), ins("f", 3, 5), ins("f", 4, 6), {Sess: "f", Kind: "reopen"}, ins("f", 5, 7, 8), ins("f", 6, 1, 2)}},
 		{Name: "tie-coin", Nodes: []NodeSpec{{}, v(0, 100), v(0, 100), v(0, 100), v(1, 50), v(2, 50)},
